@@ -350,6 +350,9 @@ func (e *endpointManager) SelectAdapterProxy(msg *Message) (*AdapterProxy, bool)
 	case adp := <-e.checkAdapter:
 		TLOG.Errorf("SelectAdapterProxy|check adapter, ep: %+v", adp.GetPoint())
 		e.checkAdapterList.Delete(endpoint.Tars2endpoint(*adp.GetPoint()).Key)
+		// the retry interval runs from the probe call itself, not from the status check that queued
+		// it: a probe that waited for the next call must not be followed by another one right away
+		atomic.StoreInt64(&adp.lastBlockTime, time.Now().Unix())
 		return adp, true
 	default:
 	}
